@@ -193,6 +193,8 @@ def writes_db(op, i, n):
         return True
     if t[0] in ("merge", "pmerge") and t[2] == i:
         return True
+    if t[0] in ("upgrade", "syncall", "sync") and t[1] == i:
+        return True
     return False
 
 
@@ -208,17 +210,56 @@ def tick_of(meta):
     return v
 
 
+WS = b" \t\n\v\f\r"
+
+
+def reader_rows(rows):
+    """the rows of `cat` as TsvReader hands them to the row parser: trailing white space trimmed, empty lines and comments
+    skipped, split at tabs.  None when the file switches comments off or a statistics-like column stands where a key is."""
+    out = []
+    for r in rows:
+        if any(col[0] == "v" for col in r[:2]):
+            return None
+        line = b"\t".join(col[1] if col[0] == "x" else b"c=?" for col in r).rstrip(WS)
+        if not line:
+            continue
+        if line.startswith(b"#"):
+            if line == b"# no comment":
+                return None
+            continue
+        out.append(line.split(b"\t"))
+    return out
+
+
+def table_weight(col):
+    """the weight column of a text row -> ('int', n) | ('zero',) absent / empty / not a number | ('unknown',) debatable"""
+    if col is None or col == b"":
+        return ("zero",)
+    m = re.match(rb"^([ \t\n\v\f\r]*)([+-]?)([0-9]+)(.*)$", col, re.S)
+    if not m:
+        return ("zero",)
+    if m.group(1) or m.group(2) == b"+" or m.group(4):
+        return ("unknown",)
+    v = int(m.group(2) + m.group(3))
+    if not -2 ** 31 < v < 2 ** 31 - 1:
+        return ("unknown",)
+    return ("int", v)
+
+
 def monitor(ops, outs):
     """Evaluate the clauses of C17 on the observations `outs` of transcript `ops`.
     Returns list of (clause, detail, index) failures and a dict of evaluation counts."""
     fails, n = [], {"merge": 0, "merge_clean": 0, "idempotent": 0, "restore": 0, "import": 0, "sync": 0, "sync_snapshots": 0, "bare_rows": 0}
     snapf = {}     # (installation, dictionary) -> (file holding a copy of its snapshot in the sync directory, op index)
+    imports_seen = {}   # (rows as a multiset, dictionary before) -> (counts after, rows in file order, op index)
     for j, op in enumerate(ops[:len(outs)]):
         t = op.split(" ")
         if j > 0:
             u = ops[j - 1].split(" ")
             if u[0] in ("backup", "sync") and len(u) == 4 and outs[j - 1].startswith("ok"):
                 snapf[(u[1], u[2])] = (u[3], j - 1)
+            if u[0] == "plant" and len(u) == 4 and outs[j - 1] == "ok":
+                snapf[(u[2], u[3])] = (u[1], j - 1)
         if j + 1 >= len(outs):
             break
         if t[0] in ("merge", "pmerge") and outs[j] == "ok" and 0 < j < len(ops) - 1:
@@ -230,7 +271,9 @@ def monitor(ops, outs):
             before = parse_dump(outs[j - 1]) or {"meta": {}, "data": {}, "hash": None}
             after = parse_dump(outs[j + 1])
             if after is None:
-                fails.append(("keys-kept", "target dictionary does not exist after the merge", j))
+                # (a snapshot that names another dictionary is merged there: the dictionary dumped here may not exist at all)
+                if parse_dump(outs[j - 1]) is not None:
+                    fails.append(("keys-kept", "target dictionary does not exist after the merge", j))
                 continue
             n["merge"] += 1
             kc0 = latest(ops, outs, j, lambda u: u[0] == "cat" and u[1] == f)
@@ -357,6 +400,47 @@ def monitor(ops, outs):
                         elif after["data"][k][2] and c != INT_MIN and abs(after["data"][k][0]) < abs(c):
                             fails.append(("abs-monotone", "entry %r: the snapshot of %s has commits %d, after Synchronize %d" %
                                           (k, p, c, after["data"][k][0]), j))
+        elif t[0] in ("upgrade", "syncall") and 0 < j < len(ops) - 1:
+            # the dictionaries dumped right before and right after (same dump ops on both sides): a conversion of an old-format
+            # dictionary and a synchronization of all dictionaries are merges — nothing vanishes, no magnitude goes down, no
+            # tick goes back; the entries of a clean old-format file are there afterwards
+            i = t[1]
+            kb = j
+            while kb > 0 and ops[kb - 1].startswith("dump %s " % i):
+                kb -= 1
+            pre = ops[kb:j]
+            post = ops[j + 1:j + 1 + len(pre)]
+            if not pre or pre != post or j + len(pre) >= len(outs):
+                continue
+            n["upgrade" if t[0] == "upgrade" else "syncall"] = n.get("upgrade" if t[0] == "upgrade" else "syncall", 0) + 1
+            for q, dop in enumerate(pre):
+                nme = dop.split(" ")[2]
+                before = parse_dump(outs[kb + q]) or {"meta": {}, "data": {}}
+                after = parse_dump(outs[j + 1 + q]) or {"meta": {}, "data": {}}
+                for k, (c, tk, ok, d) in before["data"].items():
+                    if k not in after["data"]:
+                        fails.append(("keys-kept", "entry %r of %s vanished in %s" % (k, nme, t[0]), j))
+                    elif ok and c != INT_MIN and abs(after["data"][k][0]) < abs(c):
+                        fails.append(("abs-monotone", "entry %r of %s: commits %d -> %d in %s" % (k, nme, c, after["data"][k][0], t[0]), j))
+                tb, ta2 = tick_of(before["meta"]), tick_of(after["meta"])
+                if tb is not None and ta2 is not None and ta2 < tb and b"/tick" in before["meta"] and b"/tick" in after["meta"]:
+                    fails.append(("tick-max", "%s lowered the tick of %s %d -> %d" % (t[0], nme, tb, ta2), j))
+                if t[0] == "upgrade" and nme == t[2] and outs[j] == "ok" and all(v[2] for v in before["data"].values()):
+                    kc = latest(ops, outs, j, lambda u: u[0] == "lcat" and u[1] == i and u[2] == nme)
+                    if kc is None or any(o.startswith(("legacy ", "upgrade ")) for o in ops[kc + 1:j]):
+                        continue
+                    rows = parse_cat(outs[kc])
+                    snap = clean_snapshot(rows) if rows is not None else None
+                    if not snap or db_name_of(snap[0]) != nme:
+                        continue
+                    n["upgrade_clean"] = n.get("upgrade_clean", 0) + 1
+                    for k, c, tk in snap[1]:
+                        if k not in after["data"]:
+                            fails.append(("keys-kept", "entry %r of the old-format dictionary is missing after the upgrade" % k, j))
+                        elif after["data"][k][2] and c != INT_MIN and abs(after["data"][k][0]) != max(abs(c), abs(before["data"].get(k, (0,))[0])) \
+                                and before["data"].get(k, (0,))[0] != INT_MIN:
+                            fails.append(("abs-max", "entry %r: ours %d, old-format file %d, after the upgrade %d" %
+                                          (k, before["data"].get(k, (0,))[0], c, after["data"][k][0]), j))
         elif t[0] == "restore" and outs[j] == "ok" and 0 < j < len(ops) - 1:
             f, i, nme = t[1], t[2], t[3]
             if ops[j - 1] != "dump %s %s" % (i, nme) or ops[j + 1] != ops[j - 1] or outs[j - 1] != "none":
@@ -398,25 +482,67 @@ def monitor(ops, outs):
             rows = parse_cat(outs[kc])
             if rows is None or not all(v[2] for v in before["data"].values()):
                 continue
+            # every row is judged by its own columns (text, code, weight), in file order: a positive weight raises the count
+            # to at least that, a negative one marks the entry deleted, a row without a weight / with an empty one / with one
+            # that does not start with a number counts as 0 — it keeps the count the entry has (an entry not yet there is
+            # created with 0 commits, or left out) — whatever stands in the rows around it.  Weights whose reading is
+            # a matter of taste (leading blanks, '+', trailing junk, beyond int) take their key out of the comparison.
+            rrows = reader_rows(rows)
+            if rrows is None or any(v[0] == INT_MIN for v in before["data"].values()):
+                continue
             exp = {k: v[0] for k, v in before["data"].items()}
-            okfile = True
-            for r in rows:
-                if r and r[0][0] == "x" and r[0][1].startswith(b"#"):
+            created0, unknown, kinds_seen = set(), set(), set()
+            for row in rrows:
+                if len(row) < 2 or not row[0] or not row[1]:
                     continue
-                if len(r) != 3 or any(col[0] != "x" for col in r) or not re.fullmatch(rb"-?[0-9]{1,9}", r[2][1]) \
-                        or not r[0][1] or not r[1][1] or r[1][1].strip() != r[1][1] or b" " in r[2][1] \
-                        or r[0][1].strip(b" \t\r\v\f") != r[0][1]:
-                    okfile = False
+                code = row[1].strip(WS)
+                if not code:
+                    unknown = None
                     break
-                key, c = r[1][1] + b" \t" + r[0][1], int(r[2][1])
-                o = exp.get(key, 0)
+                key = code + b" \t" + row[0]
+                w = table_weight(row[2] if len(row) >= 3 else None)
+                kinds_seen.add(w[0])
+                if w[0] == "unknown":
+                    unknown.add(key)
+                    continue
+                if key in unknown:
+                    continue
+                c = w[1] if w[0] == "int" else 0
+                o = exp.get(key)
+                if o is None:
+                    created0.add(key)
+                    o = 0
                 exp[key] = max(o, c) if c > 0 else (min(c, -abs(o)) if c < 0 else o)
-            if okfile:
-                got = {k: v[0] for k, v in after["data"].items()}
-                if got != exp:
-                    bad = [k for k in set(exp) | set(got) if exp.get(k) != got.get(k)]
-                    fails.append(("import-rules", "entries %r: expected %r, got %r" %
-                                  (bad[:3], [exp.get(k) for k in bad[:3]], [got.get(k) for k in bad[:3]]), j))
+            if unknown is None:
+                continue
+            n["import_rows_judged"] = n.get("import_rows_judged", 0) + len(rrows)
+            if "zero" in kinds_seen and "int" in kinds_seen:
+                n["import_mixed_files"] = n.get("import_mixed_files", 0) + 1
+            got = {k: v[0] for k, v in after["data"].items()}
+            bad = []
+            for k in sorted(set(exp) | set(got)):
+                if k in unknown:
+                    continue
+                e, g = exp.get(k), got.get(k)
+                if e != g and not (g is None and k in created0 and e == 0):
+                    bad.append(k)
+            if bad:
+                fails.append(("import-rules", "entries %r: by their own rows expected %r, got %r" %
+                              (bad[:3], [exp.get(k) for k in bad[:3]], [got.get(k) for k in bad[:3]]), j))
+            # the same rows (distinct keys) imported in another order into an equal dictionary give the same counts
+            keys = [r[1].strip(WS) + b" \t" + r[0] for r in rrows if len(r) >= 2 and r[0] and r[1]]
+            if len(set(keys)) == len(keys):
+                sig = (tuple(sorted(tuple(r) for r in rrows)), tuple(sorted((k, v[0]) for k, v in before["data"].items())))
+                res = tuple(sorted(got.items()))
+                prev = imports_seen.get(sig)
+                if prev is None:
+                    imports_seen[sig] = (res, tuple(tuple(r) for r in rrows), j)
+                elif prev[1] != tuple(tuple(r) for r in rrows):
+                    n["import_order_pairs"] = n.get("import_order_pairs", 0) + 1
+                    if prev[0] != res:
+                        d = [k for k in set(dict(res)) | set(dict(prev[0])) if dict(res).get(k) != dict(prev[0]).get(k)]
+                        fails.append(("import-order", "the same rows imported in another order (op %d) gave other counts for %r: %r vs %r" %
+                                      (prev[2], d[:3], [dict(prev[0]).get(k) for k in d[:3]], [dict(res).get(k) for k in d[:3]]), j))
     return fails, n
 
 
@@ -546,6 +672,146 @@ def scenario_lost(rng, sid):
     return ops
 
 
+def snapshot_text(rng, nme, keys, kind):
+    """a snapshot file as another installation / version / accident may have left it"""
+    lines = ["# Rime user dictionary"]
+    if kind != "nometa":
+        lines.append("#@/db_name\t" + (nme if kind != "othername" else "other") + rng.choice(["", ".userdb", ".userdb.kct"]))
+        if kind != "notype":
+            lines.append("#@/db_type\t" + ("userdb" if kind != "wrongtype" else "tabledb"))
+        lines.append("#@/rime_version\t0.9.8")
+        if rng.random() < 0.85:
+            lines.append("#@/tick\t%d" % rng.choice([0, 7, 300, 5000, 10 ** 6]))
+        lines.append("#@/user_id\t" + rng.choice(["peer-x", "unknown", ""]))
+    if kind == "garbage":
+        return "\x00\x01binary\tjunk\n\tc=1\n\n"
+    for k in keys:
+        code, text = k.decode().split("\t")
+        v = gen_value(rng, 5000, 2 ** 31 - 2).decode()
+        r = rng.random()
+        if kind == "legacyrows" and r < 0.4:
+            lines.append(rng.choice([code.rstrip(" ") + "\t" + text + "\t" + v, code + "\t" + text, code + "\t" + text + "\t",
+                                     "# " + code, code + "\t" + text + "\t" + v + "\textra"]))
+        else:
+            lines.append(code + "\t" + text + "\t" + v)
+    return "\n".join(lines) + "\n"
+
+
+SNAP_KINDS = ["clean", "clean", "clean", "legacyrows", "notype", "wrongtype", "nometa", "othername", "garbage"]
+
+
+def scenario_plant(rng, sid):
+    """snapshots in the sync directory that no installation of this run wrote: other machines', old versions', damaged ones.
+    Synchronize must merge every good one (whatever the bad ones are, wherever the iterator meets them) and back up;
+    an interrupted earlier run may have left the scratch dictionary `.temp` behind"""
+    sid = sid + "_"
+    a, b = sid + "A", sid + "B"
+    nme = rng.choice(["d", "luna_pinyin"])
+    pool = list({gen_key(rng) for _ in range(rng.choice([3, 6, 9]))})
+    ops = []
+    gen_db(rng, a, nme, [k for k in pool if rng.random() < 0.6] or pool[:1], ops)
+    if rng.random() < 0.5:
+        gen_db(rng, b, nme, [k for k in pool if rng.random() < 0.5], ops)
+        ops += ["dump %s %s" % (b, nme), "sync %s %s %ssb" % (b, nme, sid), "dump %s %s" % (b, nme), "cat %ssb" % sid]
+    for q, peer in enumerate(rng.sample("CDEFGH", rng.choice([1, 2, 3]))):
+        f = "%spf%d" % (sid, q)
+        kind = rng.choice(SNAP_KINDS)
+        ops += ["file %s %s" % (f, hx(snapshot_text(rng, nme, [k for k in pool if rng.random() < 0.6], kind))), "cat %s" % f,
+                "plant %s %s%s %s" % (f, sid, peer, nme)]
+    if rng.random() < 0.4:
+        ops.append("put %s .temp %s %s" % (a, hx(gen_key(rng)), hx(gen_value(rng, 100))))
+        if rng.random() < 0.5:
+            ops.append("meta %s .temp %s %s" % (a, hx("/tick"), hx("999999")))
+    for r in range(2):
+        f = "%ssa%d" % (sid, r)
+        ops += ["dump %s %s" % (a, nme), "sync %s %s %s" % (a, nme, f), "dump %s %s" % (a, nme), "cat %s" % f, "dump %s .temp" % a,
+                "dump %s other" % a]
+    # the same files merged one by one (with the stale scratch dictionary in the way)
+    if rng.random() < 0.5:
+        ops.append("put %s .temp %s %s" % (b, hx(gen_key(rng)), hx(gen_value(rng, 100))))
+        ops += ["cat %spf0" % sid, "dump %s %s" % (b, nme), "merge %spf0 %s" % (sid, b), "dump %s %s" % (b, nme),
+                "merge %spf0 %s" % (sid, b), "dump %s %s" % (b, nme), "dump %s .temp" % b]
+    return ops
+
+
+def scenario_upgrade(rng, sid):
+    """an old-format (plain text) user dictionary found in the user data directory is converted: backed up in the uniform
+    format, removed, and merged into the current dictionary of the name the file carries"""
+    i = sid + "U"
+    nme = rng.choice(["d", "luna_pinyin", "x.y"])
+    pool = list({gen_key(rng) for _ in range(rng.choice([2, 5, 8]))})
+    ops = []
+    if rng.random() < 0.6:
+        gen_db(rng, i, nme, [k for k in pool if rng.random() < 0.5], ops)
+    kind = rng.choice(["clean", "clean", "clean", "legacyrows", "legacyrows", "notype", "wrongtype", "nometa", "othername"])
+    f = sid + "lg"
+    ops += ["file %s %s" % (f, hx(snapshot_text(rng, nme, [k for k in pool if rng.random() < 0.7], kind))),
+            "legacy %s %s %s" % (f, i, nme), "lcat %s %s" % (i, nme)]
+    if rng.random() < 0.3:
+        ops.append("put %s .temp %s %s" % (i, hx(gen_key(rng)), hx(gen_value(rng, 100))))
+    ops += ["dump %s %s" % (i, nme), "dump %s other" % i, "upgrade %s %s" % (i, nme), "dump %s %s" % (i, nme), "dump %s other" % i,
+            "lcat %s %s" % (i, nme), "dump %s .temp" % i,
+            "dump %s %s" % (i, nme), "dump %s other" % i, "upgrade %s %s" % (i, nme), "dump %s %s" % (i, nme), "dump %s other" % i,
+            "upgrade %s nosuch" % i]
+    return ops
+
+
+def scenario_syncall(rng, sid):
+    """installations with several user dictionaries synchronize all of them in one go"""
+    sid = sid + "_"
+    insts = [sid + ch for ch in "AB"]
+    names = rng.sample(["d", "luna_pinyin", "q", "x.y"], rng.choice([2, 2, 3]))
+    pool = list({gen_key(rng) for _ in range(rng.choice([4, 7]))})
+    ops = []
+    for i in insts:
+        for nme in names:
+            if rng.random() < 0.8:
+                gen_db(rng, i, nme, [k for k in pool if rng.random() < 0.5], ops)
+    if rng.random() < 0.4:
+        f = sid + "pf"
+        nme = rng.choice(names)
+        ops += ["file %s %s" % (f, hx(snapshot_text(rng, nme, [k for k in pool if rng.random() < 0.6], rng.choice(SNAP_KINDS)))),
+                "cat %s" % f, "plant %s %sC %s" % (f, sid, nme)]
+    for r in range(rng.choice([2, 3])):
+        for i in insts:
+            dumps = ["dump %s %s" % (i, nme) for nme in names]
+            ops += dumps + ["syncall %s" % i] + dumps
+            if rng.random() < 0.3:
+                ops.append("put %s %s %s %s" % (i, rng.choice(names), hx(rng.choice(pool)), hx(gen_value(rng, 2000))))
+    return ops
+
+
+def scenario_import_order(rng, sid):
+    """text files whose rows mix, in every order, weights that count (positive, negative), rows without a weight column, with
+    an empty one, with one that is no number, and zero: each row must be judged by its own columns, so the same rows in
+    another order, imported into an equal dictionary, give the same counts"""
+    nme = rng.choice(["d", "luna_pinyin"])
+    keys = list({gen_key(rng) for _ in range(rng.choice([4, 6, 9]))})
+    rows = []
+    for k in keys:
+        code, text = k.decode().split("\t")
+        kind = rng.choice(["pos", "pos", "neg", "none", "none", "empty", "bad", "zero"])
+        w = {"pos": str(rng.choice([1, 2, 5, 40, 65535, 2 ** 31 - 2])), "neg": str(-rng.choice([1, 3, 100])), "zero": "0",
+             "bad": rng.choice(["abc", "-", "x1", "n/a", "c=5 d=1 t=2"])}.get(kind)
+        rows.append("\t".join([text, code.strip()] + ([] if kind == "none" else ["" if kind == "empty" else w])))
+    orders = [rows[:], rows[::-1]]
+    sh = rows[:]
+    rng.shuffle(sh)
+    orders.append(sh)
+    # weighted rows first / last
+    heavy = sorted(rows, key=lambda r: 0 if re.search(r"\t-?[0-9]+$", r) else 1)
+    orders += [heavy, heavy[::-1]]
+    base = []
+    gen_db(rng, "@@", nme, [k for k in keys if rng.random() < 0.4], base, cmax=2 ** 31 - 2)
+    ops = []
+    for q, order in enumerate(orders):
+        i, f = "%sO%d" % (sid, q), "%sio%d" % (sid, q)
+        ops += [o.replace(" @@ ", " %s " % i) for o in base]
+        ops += ["file %s %s" % (f, hx("# Rime user dictionary export\n" + "\n".join(order) + "\n")), "cat %s" % f,
+                "dump %s %s" % (i, nme), "import %s %s %s" % (i, nme, f), "dump %s %s" % (i, nme)]
+    return ops
+
+
 LENIENT_VALUES = ["", "c=5", "t=9", "c=abc d=1 t=2", "c=5x d=0.5y t=7z", "c=3 d= t=4", "c=1  d=2  t=3 ", "c=+4 d=+.5 t=+6",
                   "c=-0 d=-0 t=-1", "d=1e-320 c=2 t=3", "c=2 d=1e-320 t=3", "c=99999999999 d=1 t=1", "c=7 d=1e999 t=1",
                   "c=7 d=inf t=5", "c=7 d=nan t=5", "x=1 c=6", "c=6=7 d=1", "=5 c=1", "c= 5", "c=\r5 t=\v6", "t=18446744073709551615",
@@ -662,6 +928,9 @@ def run_pair(c, exe, ops, tag, version, env=None, wrapper=None, timeout=3000):
         if o.startswith("sync "):
             m = re.search(r" order=(\S+)", impl[j + 1]) if j + 1 < len(impl) else None
             o = o + " " + (m.group(1) if m else "-")
+        elif o.startswith("syncall "):
+            m = re.search(r" names=(\S+) order=(\S+)", impl[j + 1]) if j + 1 < len(impl) else None
+            o = o + " " + (m.group(1) if m else "-") + " " + (m.group(2) if m else "-")
         mops.append(o)
     mtext = "version %s\n" % version + "".join(o + "\n" for o in mops)
     model = vlib.run_driver("driver_c17", mtext).splitlines()
@@ -839,9 +1108,16 @@ def run(c):
         scen.append(("sync%d" % k, scenario_sync(c.rng, "y%d_" % k)))
     for k in range(max(4, n_sync // 3)):
         scen.append(("lost%d" % k, scenario_lost(c.rng, "z%d_" % k)))
+    for k in range(n_sync):
+        scen.append(("plant%d" % k, scenario_plant(c.rng, "w%d" % k)))
+        scen.append(("upgrade%d" % k, scenario_upgrade(c.rng, "g%d" % k)))
+    for k in range(max(6, n_sync // 2)):
+        scen.append(("syncall%d" % k, scenario_syncall(c.rng, "h%d" % k)))
+    for k in range(n_sync):
+        scen.append(("import-order%d" % k, scenario_import_order(c.rng, "i%d" % k)))
     # the scenarios are independent worlds: run them in parallel shards (the work is fsync-bound)
     from concurrent.futures import ThreadPoolExecutor
-    K = 2 if quick else 6
+    K = 4 if quick else 6          # (the harness mostly waits for LevelDB's fsyncs: shards overlap the waiting)
     shards = [scen[i::K] for i in range(K)]
 
     def run_shard(idx):
@@ -858,7 +1134,9 @@ def run(c):
     t_run = time.time() - t0
     n_ops = sum(len(r[0]) for r in results)
     stats = {"dee_compared": 0, "dee_inexact": 0}
-    counts = {"merge": 0, "merge_clean": 0, "idempotent": 0, "restore": 0, "import": 0, "sync": 0, "sync_snapshots": 0, "bare_rows": 0}
+    counts = {"merge": 0, "merge_clean": 0, "idempotent": 0, "restore": 0, "import": 0, "sync": 0, "sync_snapshots": 0, "bare_rows": 0,
+              "upgrade": 0, "upgrade_clean": 0, "syncall": 0,
+              "import_rows_judged": 0, "import_mixed_files": 0, "import_order_pairs": 0}
     crashes, recs = [], []
     k_fail, o_fail, distinct, kinds = [], [], set(), {}
     for sops, spans, impl, model, rc, raw in results:
@@ -874,7 +1152,7 @@ def run(c):
     for nm, ops, im, mo in recs:
         fails, n = monitor(ops, im)
         for k in counts:
-            counts[k] += n[k]
+            counts[k] += n.get(k, 0)
         for cl, what, j in fails:
             o_fail.append((nm, cl, what, j, ops))
         d = first_disagreement(ops, im, mo, stats)
